@@ -250,6 +250,7 @@ func Run(c *core.Ctx) {
 		"(c) sink attributes kindmatch/scopematch/statematch/priority/suppresses with every universe value (plain, list-wrapped, map-wrapped), duplicates, missing attributes, then events; "+
 		"(d) statematch value x event state value over the universe squared, events sent by addEvent, addEventAndWait and by engine.NewEvent+Processor.AddEventAndWait, on 1 and 4 workers; "+
 		"(d2) failing sink bodies (raise with 0..3 universe arguments, operator errors, return/break/continue, imports, paths into the event) whose errors come back through addEventAndWait/addEvent; (e) access paths: 7 containers x read/write forms x 26 index values (universe + fractional/negative/huge/string indices); "+
+		"(h) every place of the grammar that evaluates a sub-expression (loop guards on the first and on a later iteration, iterators, parameter defaults, map keys, except/otherwise/finally bodies, sink attributes, ... 70 forms) x 43 expressions that fail when evaluated or yield an odd value, complete product; "+
 		"(f) three programs that build a list / map / event state containing itself and then print or match it (a fatal stack overflow there is the death of the child, classified by the driver). "+
 		"Non-trivial = distinct source texts whose real execution took a failure path (error value returned, error caught by except, sink invocation failed) or that went through the pool. "+
 		"Excluded: user-written non-termination, interpolation edge cases (C14), whether except sees return/break/iterator signals (C04).")
@@ -267,6 +268,7 @@ func Run(c *core.Ctx) {
 	run("binops", h.streamBinops)
 	run("unary", h.streamUnary)
 	run("templates", h.streamTemplates)
+	run("ctx", h.streamCtx)
 	run("paths", h.streamPaths)
 	run("sinkattrs", h.streamSinkAttrs)
 	run("statematch", h.streamStateMatch)
